@@ -151,7 +151,7 @@ def ground_fallback(hyps, goal, timeout_ms):
     return r, (s.model() if r == z3.sat else None)
 
 
-def discharge(ob, z3_timeout_ms=10000, cvc5_timeout_s=30, cross_check=False, expect_sat=False):
+def discharge(ob, z3_timeout_ms=10000, cvc5_timeout_s=30, cross_check=False, expect_sat=False, quick_fail=False):
     """sets ob.status in {unsat, sat, unknown}, ob.backend, ob.model (z3 model object kept for replay extraction)"""
     t0 = time.time()
     goal = ob.goal
@@ -198,6 +198,9 @@ def discharge(ob, z3_timeout_ms=10000, cvc5_timeout_s=30, cross_check=False, exp
     ob.time = time.time() - t0
     if gr == z3.unsat:
         ob.status, ob.backend = "unsat", "z3-ground-instances"
+        return ob
+    if gr == z3.sat and quick_fail:
+        ob.status, ob.backend, ob.time = "unknown", "budget-exhausted (ground-instance counter-model not confirmed)", time.time() - t0
         return ob
     if gr == z3.sat:
         # a counter-model of the *weakened* VC only: try hard to refute (or confirm) it on the full VC before reporting it
